@@ -362,6 +362,9 @@ def run_case(case, vector):
             elif name in ("to_Vector3D", "to_Vector4D"):
                 fg = lambda: getattr(Gv, name)(**st["kwg"])  # noqa: E731
                 fm = lambda: getattr(Mv, name)(**st["kwm"])  # noqa: E731
+            elif name == "neg2D":   # a property
+                fg = lambda: getattr(Gv, name)  # noqa: E731
+                fm = lambda: getattr(Mv, name)  # noqa: E731
             else:
                 fg = lambda: getattr(Gv, name)()  # noqa: E731
                 fm = lambda: getattr(Mv, name)()  # noqa: E731
